@@ -5,7 +5,7 @@
 //!  (a) every byte string of length <= L on every stream kind (request, control after
 //!      SETTINGS, control as first bytes, QPACK encoder, QPACK decoder, push, WebTransport uni,
 //!      unknown), delivered whole and one byte per read, with and without FIN;
-//!  (b) grammar strings (request-stream and control-stream frame sequences) with one fault —
+//!  (b) grammar strings (server role: every request-stream string once more with the request handled inside the accept loop; request-stream and control-stream frame sequences) with one fault —
 //!      FIN, RESET, STOP_SENDING, connection close, transport timeout — injected at EVERY byte
 //!      offset of the script, delivered whole and per byte (so "truncated exactly at a chunk
 //!      boundary" is always included).
@@ -37,6 +37,9 @@ pub enum StreamKind {
     /// a unidirectional stream of the peer with NOTHING written for it: the case's bytes are all there is (a stream
     /// that ends before its type, inside its type, or right behind it where a push / session id should start)
     UniRaw,
+    /// server role: a request stream whose handler runs INSIDE the accept loop (accept() is not polled, nothing drives
+    /// the connection, until the handler has returned)
+    RequestInline,
 }
 
 #[derive(Clone, Copy, Debug, PartialEq, Eq)]
@@ -82,7 +85,7 @@ const HORIZON: usize = 20_000;
 
 fn prefix_for(kind: StreamKind) -> Vec<u8> {
     match kind {
-        StreamKind::Request => vec![],
+        StreamKind::Request | StreamKind::RequestInline => vec![],
         StreamKind::ControlAfterSettings => control_preamble(&[]),
         StreamKind::ControlFirst => vec![0x00],
         StreamKind::Encoder => vec![0x02],
@@ -96,6 +99,7 @@ fn prefix_for(kind: StreamKind) -> Vec<u8> {
 
 pub fn execute(case: &Case, seed: u64) -> Outcome {
     fastrand::seed(seed);
+    set_inline_handlers(case.kind == StreamKind::RequestInline);
     let (me, peer) = match case.me {
         Endpoint::Server => (SERVER, CLIENT),
         Endpoint::Client => (CLIENT, SERVER),
@@ -173,7 +177,7 @@ pub fn execute(case: &Case, seed: u64) -> Outcome {
     // stream is the first one unless the target IS the control stream)
     let ctrl = if peer == CLIENT { CLIENT_CTRL } else { SERVER_CTRL };
     let target: u64 = match case.kind {
-        StreamKind::Request => 0,
+        StreamKind::Request | StreamKind::RequestInline => 0,
         StreamKind::ControlAfterSettings | StreamKind::ControlFirst => ctrl,
         _ => ctrl + 4,
     };
@@ -330,7 +334,7 @@ pub fn judge(case: &Case, o: &Outcome) -> Vec<(String, String)> {
             format!("{c}: the connection is closed/timed out but accept()/poll_close() is still pending; results so far {:?}", o.driver.results),
         ));
     }
-    if case.kind == StreamKind::Request {
+    if matches!(case.kind, StreamKind::Request | StreamKind::RequestInline) {
         if let Some(m) = &o.msg {
             let (fin, reset, _) = o.in_pipe;
             let recv_stage = matches!(m.stage.as_str(), "resolve" | "recv_response" | "recv_data" | "recv_trailers");
@@ -377,6 +381,7 @@ fn case_from_json(v: &Value) -> Case {
         me: if v["me"] == "server" { Endpoint::Server } else { Endpoint::Client },
         kind: match v["kind"].as_str().unwrap() {
             "Request" => StreamKind::Request,
+            "RequestInline" => StreamKind::RequestInline,
             "ControlAfterSettings" => StreamKind::ControlAfterSettings,
             "ControlFirst" => StreamKind::ControlFirst,
             "Encoder" => StreamKind::Encoder,
@@ -609,7 +614,10 @@ pub fn run(args: &Args) -> i32 {
     }
     // (b)
     let faults = [Fault::Fin, Fault::Reset(0x10c), Fault::StopSending(0x10c), Fault::Close(0x101), Fault::Close(0x100), Fault::Timeout, Fault::Cut];
-    for (kind, me, bytes) in grammar_strings(thorough) {
+    let mut gs = grammar_strings(thorough);
+    let inline: Vec<(StreamKind, Endpoint, Vec<u8>)> = gs.iter().filter(|(k, me, _)| *k == StreamKind::Request && *me == Endpoint::Server).map(|(_, me, b)| (StreamKind::RequestInline, *me, b.clone())).collect();
+    gs.extend(inline);
+    for (kind, me, bytes) in gs {
         for per_byte in [false, true] {
             cases.push(Case { me, kind, bytes: bytes.clone(), per_byte, fault: None, fin: true });
             cases.push(Case { me, kind, bytes: bytes.clone(), per_byte, fault: None, fin: false });
